@@ -780,4 +780,220 @@ Section Run.
       apply SB_step; auto.
     Qed.
   End Both.
+
+  (* ---------- part 6: the run-level theorems of C02 ---------- *)
+  Lemma last_some_in {A} (l : list A) x : last (map Some l) None = Some x -> In x l.
+  Proof.
+    destruct l as [|y l' _] using rev_ind; [discriminate|].
+    rewrite olast_app_one. intros E. inversion E; subst. apply in_or_app. right. left. reflexivity.
+  Qed.
+
+  Lemma map_snd_split (g l1 l2 : list jentry) j : g = l1 ++ j :: l2 -> map snd g = map snd l1 ++ snd j :: map snd l2.
+  Proof. intros ->. rewrite map_app. reflexivity. Qed.
+
+  Lemma slog_app g1 g2 : slog (g1 ++ g2) = slog g1 ++ slog g2.
+  Proof. unfold slog. apply flat_map_app. Qed.
+
+  (* (1) authentication as an invariant of runs *)
+  Theorem run_authentication_proof :
+    (forall sk s m, verify (pub sk) s m = true <-> s = sign sk m) ->
+    forall e a b root rand akeys other vs, ~ In root akeys ->
+    dy_run e root akeys other (hnet0 a (Some (pub root)) b root rand) vs ->
+    let n := jrun e (hnet0 a (Some (pub root)) b root rand) vs in
+    match h_adopted (jA n) with
+    | None => c_key (h_conn (jA n)) = None /\ c_status (h_conn (jA n)) <> CONNECTED
+    | Some (rp, p, sg) =>
+        sg = sign root p /\ verify (pub root) sg p = true /\
+        (In p other \/ exists cpub, In (cpub, p) (signed_log (gB n))) /\
+        c_key (h_conn (jA n)) = Some (client_key a p) /\ c_token (h_conn (jA n)) = sp_token p /\
+        exists d k0 sA, In (d, k0, (sA, SERVER_HELLO, MServerHello rp p sg)) (gA n) /\
+                        carried (d, k0, (sA, SERVER_HELLO, MServerHello rp p sg))
+    end.
+  Proof.
+    intros VS e a b root rand akeys other vs NR DY n.
+    pose proof (JA_run VS a root akeys other NR e vs _ (JA_init a b root other rand) DY) as [HR HC _].
+    fold n in HR, HC. destruct HR as (_ & _ & AD & AK).
+    destruct (h_adopted (jA n)) as [[[rp p] sg]|]; [|destruct AK as (K & St & _); auto].
+    destruct AK as ((en & Hin & Ha) & K & T). destruct (AD _ _ _ _ Hin Ha) as [Sg InG].
+    split; [exact Sg|]. split; [apply VS; exact Sg|]. split; [|split; [exact K|split; [exact T|]]].
+    - unfold HsNet.genuine_payloads in InG. apply in_app_or in InG as [X|X]; [left; exact X|right].
+      apply in_map_iff in X as ([cpub p'] & E & X). cbn in E. subst p'. exists cpub. exact X.
+    - apply in_map_iff in Hin as ([[d k0] en'] & E & Hin). cbn in E. subst en'.
+      destruct en as [[sA ty] m]. destruct Ha as (-> & -> & _).
+      exists d, k0, sA. split; [exact Hin|]. rewrite Forall_forall in HC. exact (HC _ Hin).
+  Qed.
+
+  (* ... every handshake message the client ever processed either was a hello signed by the root key
+     holder (genuine: built by B in this history or by another session of the server) which it adopted,
+     or left key and token alone and the status as it was or DISCONNECTED *)
+  Theorem run_client_messages_proof :
+    (forall sk s m, verify (pub sk) s m = true <-> s = sign sk m) ->
+    forall e a b root rand akeys other vs, ~ In root akeys ->
+    dy_run e root akeys other (hnet0 a (Some (pub root)) b root rand) vs ->
+    let n := jrun e (hnet0 a (Some (pub root)) b root rand) vs in
+    forall d k0 sA ty m, In (d, k0, (sA, ty, m)) (gA n) ->
+    let c1 := fst (hs_step sA ty m) in
+    (exists rp p sg, ty = SERVER_HELLO /\ m = MServerHello rp p sg /\ sg = sign root p /\
+       (In p other \/ exists cpub, In (cpub, p) (signed_log (gB n))) /\
+       c_key c1 = Some (client_key a p) /\ c_token c1 = sp_token p /\ c_status c1 = CONNECTED) \/
+    (c_key c1 = c_key (h_conn sA) /\ c_token c1 = c_token (h_conn sA) /\
+     (c_status c1 = c_status (h_conn sA) \/ c_status c1 = DISCONNECTED)).
+  Proof.
+    intros VS e a b root rand akeys other vs NR DY n d k0 sA ty m Hin c1.
+    pose proof (JA_run VS a root akeys other NR e vs _ (JA_init a b root other rand) DY) as [HR _ _].
+    fold n in HR. destruct HR as (_ & CE & AD & _).
+    assert (Hin' : In (sA, ty, m) (map snd (gA n))) by (apply in_map_iff; exists (d, k0, (sA, ty, m)); auto).
+    destruct (CE _ _ _ Hin') as (Sv & Pr & Pin).
+    subst c1. destruct (hs_step sA ty m) as [c1 o1] eqn:St. cbn [fst].
+    destruct ty; try solve [right; unfold Handshake.hs_step, Handshake.oracle_of, recv_handshake in St; try rewrite Sv in St;
+                      destruct m; inversion St; subst c1 o1; auto].
+    destruct (client_key_only_from_verified_hello_proof _ _ _ _ _ _ _ _ _ _ _ _ Sv St) as [X|(rp & p & sg & -> & V & K & T & S1)];
+      [right; exact X|left].
+    assert (Ha : adopts (sA, SERVER_HELLO, MServerHello rp p sg) rp p sg) by (repeat split; auto).
+    destruct (AD _ _ _ _ Hin' Ha) as [Sg InG]. exists rp, p, sg. repeat split; auto.
+    - unfold HsNet.genuine_payloads in InG. apply in_app_or in InG as [X|X]; [left; exact X|right].
+      apply in_map_iff in X as ([cpub p'] & E & X). cbn in E. subst p'. exists cpub. exact X.
+    - rewrite K, Pr. reflexivity.
+  Qed.
+
+  (* a payload in B's signed log was built by B: a logged client hello in whose step the connection
+     queued exactly ser_shello (pub root) p (sign root p) *)
+  Theorem run_genuine_built_proof : forall e a pinned b root rand vs,
+    let n := jrun e (hnet0 a pinned b root rand) vs in
+    forall cpub p, In (cpub, p) (signed_log (gB n)) ->
+    exists d k0 sB ver, In (d, k0, (sB, CLIENT_HELLO, MClientHello cpub ver true)) (gB n) /\
+      sp_pub p = pub b /\
+      fst (hs_step sB CLIENT_HELLO (MClientHello cpub ver true)) =
+        send_type ((h_conn sB) <| c_token := sp_token p |> <| c_key := Some (server_key b cpub p) |> <| c_status := CONNECTING |>)
+          SERVER_HELLO (ser_shello (pub root) p (sign root p)) RNone INone.
+  Proof.
+    intros e a pinned b root rand vs n cpub p Hin.
+    pose proof (JB_run b root e vs _ (JB_init b root a pinned rand)) as [HR _]. fold n in HR.
+    destruct HR as (_ & _ & Hist & _).
+    unfold HsNet.signed_log in Hin. apply in_flat_map in Hin as ([[d k0] [[sB ty] m]] & Hj & Hs). cbn [snd] in Hs.
+    apply in_split in Hj as (l1 & l2 & El). pose proof (map_snd_split _ _ _ _ El) as Em. cbn [snd] in Em.
+    destruct (Hist _ _ _ _ _ Em) as ((Sv & Pr & Rt & Tm) & _ & _).
+    destruct (hs_step sB ty m) as [c1 o1] eqn:St.
+    destruct (server_hs_cases _ _ _ _ _ Sv Tm St) as
+      [(cpub' & ver & -> & -> & SO & _ & E1 & _)|[(_ & _ & _ & SO & _)|(_ & SO & _)]];
+      try solve [rewrite SO in Hs; destruct Hs].
+    cbv zeta in SO, E1. rewrite SO in Hs. destruct Hs as [E|[]]. inversion E; subst cpub' p.
+    exists d, k0, sB, ver. split; [rewrite El; apply in_or_app; right; left; reflexivity|].
+    split; [cbn; rewrite Pr; reflexivity|]. rewrite St. cbn [fst]. rewrite E1, Rt, Pr. reflexivity.
+  Qed.
+
+  (* (2a) promotion on proof of key, EVERY history: each handler.connect B has reported was caused by a
+     CHALLENGE_RESP message carrying the token of the hello B had signed last, in a datagram authentic
+     under the key B held when it arrived, while B held the key derived for that hello; and B is
+     CONNECTED only with the key and token of such a report *)
+  Theorem run_connect_proof : forall e a pinned b root rand vs,
+    let n := jrun e (hnet0 a pinned b root rand) vs in
+    (forall d k0 sB ty m, In (d, k0, (sB, ty, m)) (gB n) -> connects (sB, ty, m) = true ->
+       ty = CHALLENGE_RESP /\ m = MChallenge (c_token (h_conn sB)) /\
+       carried (d, k0, (sB, ty, m)) /\
+       (exists k, k0 = Some k /\ authentic k d) /\
+       exists cpub p, In (cpub, p) (signed_log (gB n)) /\ sp_pub p = pub b /\
+          c_key (h_conn sB) = Some (server_key b cpub p) /\ c_token (h_conn sB) = sp_token p) /\
+    (c_status (h_conn (jB n)) = CONNECTED ->
+       exists d k0 sB m, In (d, k0, (sB, CHALLENGE_RESP, m)) (gB n) /\ connects (sB, CHALLENGE_RESP, m) = true /\
+          c_key (h_conn sB) = c_key (h_conn (jB n)) /\ c_token (h_conn sB) = c_token (h_conn (jB n))).
+  Proof.
+    intros e a pinned b root rand vs n.
+    pose proof (JB_run b root e vs _ (JB_init b root a pinned rand)) as [HR HE]. fold n in HR, HE.
+    destruct HR as (_ & _ & Hist & Cn & _). split.
+    - intros d k0 sB ty m Hj Hc.
+      rewrite Forall_forall in HE. destruct (HE _ Hj) as [Car Auth]. cbn [fst snd] in Auth.
+      destruct (Auth Hc) as (k & -> & Au & Kn).
+      apply in_split in Hj as (l1 & l2 & El). pose proof (map_snd_split _ _ _ _ El) as Em. cbn [snd] in Em.
+      destruct (Hist _ _ _ _ _ Em) as (_ & KR & CC). destruct (CC Hc) as (-> & -> & _).
+      split; [reflexivity|]. split; [reflexivity|]. split; [exact Car|]. split; [exists k; auto|].
+      unfold keyrel in KR.
+      match type of KR with match ?X with _ => _ end => destruct X as [[cpub p]|] eqn:L end; [|contradiction].
+      destruct KR as (K & T & P). exists cpub, p. repeat split; auto.
+      rewrite signed_log_slog, Em, slog_app. apply in_or_app. left. apply last_some_in. exact L.
+    - intros St. destruct (Cn St) as (s1 & m & Hin & Hc & K & T).
+      apply in_map_iff in Hin as ([[d k0] en] & E & Hin). cbn in E. subst en. exists d, k0, s1, m. auto.
+  Qed.
+
+  (* (2b) agreement: when the hello the client holds is the one B signed last and B signed it for the
+     client's public key, both ends hold the same key and the same token *)
+  Theorem run_agreement_proof :
+    (forall sk s m, verify (pub sk) s m = true <-> s = sign sk m) ->
+    (forall x y, dh x (pub y) = dh y (pub x)) ->
+    forall e a b root rand akeys other vs, ~ In root akeys ->
+    dy_run e root akeys other (hnet0 a (Some (pub root)) b root rand) vs ->
+    let n := jrun e (hnet0 a (Some (pub root)) b root rand) vs in
+    forall rp p sg, h_adopted (jA n) = Some (rp, p, sg) ->
+    last (map Some (signed_log (gB n))) None = Some (pub a, p) ->
+    c_key (h_conn (jA n)) = Some (kdf (dh a (pub b)) (sp_salt p)) /\
+    c_key (h_conn (jB n)) = c_key (h_conn (jA n)) /\
+    c_token (h_conn (jA n)) = sp_token p /\ c_token (h_conn (jB n)) = sp_token p.
+  Proof.
+    intros VS DC e a b root rand akeys other vs NR DY n rp p sg Had Hl.
+    pose proof (JA_run VS a root akeys other NR e vs _ (JA_init a b root other rand) DY) as [HR _ _].
+    pose proof (JB_run b root e vs _ (JB_init b root a (Some (pub root)) rand)) as [HB _].
+    fold n in HR, HB. destruct HR as (_ & _ & _ & AK). destruct HB as (_ & KR & _).
+    rewrite Had in AK. destruct AK as (_ & KA & TA).
+    unfold keyrel in KR. rewrite <- signed_log_slog, Hl in KR. destruct KR as (KB & TB & P).
+    unfold HsNet.client_key in KA. unfold HsNet.server_key in KB. rewrite P in KA.
+    split; [exact KA|]. split; [rewrite KA, KB, DC; reflexivity|]. auto.
+  Qed.
+
+  (* (2c/3) with the AES-GCM hypothesis for B: a connect report of B was caused by a datagram that A
+     itself sealed, under a key A had derived from a hello signed by the root key holder *)
+  Theorem run_connect_sealed_by_client_proof :
+    (forall sk s m, verify (pub sk) s m = true <-> s = sign sk m) ->
+    forall e a b root rand akeys other vs, ~ In root akeys ->
+    dy_run e root akeys other (hnet0 a (Some (pub root)) b root rand) vs ->
+    sealed_run e (hnet0 a (Some (pub root)) b root rand) vs ->
+    let n := jrun e (hnet0 a (Some (pub root)) b root rand) vs in
+    forall d k0 sB ty m, In (d, k0, (sB, ty, m)) (gB n) -> connects (sB, ty, m) = true ->
+    exists k, k0 = Some k /\ authentic k d /\ In d (jAB n) /\
+      exists dA kA sA rp pl sg, In (dA, kA, (sA, SERVER_HELLO, MServerHello rp pl sg)) (gA n) /\
+        verify (pub root) sg pl = true /\ sg = sign root pl /\
+        (In pl other \/ exists cpub, In (cpub, pl) (signed_log (gB n))) /\
+        k = client_key a pl.
+  Proof.
+    intros VS e a b root rand akeys other vs NR DY SR n d k0 sB ty m Hj Hc.
+    pose proof (JA_run VS a root akeys other NR e vs _ (JA_init a b root other rand) DY) as [HR _ HW].
+    assert (HS0 : SB_inv (hnet0 a (Some (pub root)) b root rand)) by (intros ? ? ? []).
+    pose proof (SB_run e vs _ HS0 SR) as HS.
+    fold n in HR, HW, HS.
+    destruct (run_connect_proof e a (Some (pub root)) b root rand vs) as [CP _]. fold n in CP.
+    destruct (CP _ _ _ _ _ Hj Hc) as (_ & _ & _ & (k & -> & Au) & _).
+    exists k. split; [reflexivity|]. split; [exact Au|].
+    pose proof (HS _ _ _ Hj) as Hd. split; [exact Hd|].
+    destruct Au as (pl0 & Hb & _).
+    destruct (HW _ _ _ _ Hd Hb) as (en & rp & pl & sg & Hin & Ha & K).
+    destruct HR as (_ & _ & AD & _). destruct (AD _ _ _ _ Hin Ha) as [Sg InG].
+    apply in_map_iff in Hin as ([[dA kA] en'] & E & Hin). cbn in E. subst en'.
+    destruct en as [[sA ty'] m']. destruct Ha as (-> & -> & _).
+    exists dA, kA, sA, rp, pl, sg. split; [exact Hin|]. split; [apply VS; exact Sg|]. split; [exact Sg|]. split; [|exact K].
+    unfold HsNet.genuine_payloads in InG. apply in_app_or in InG as [X|X]; [left; exact X|right].
+    apply in_map_iff in X as ([cpub p'] & E & X). cbn in E. subst p'. exists cpub. exact X.
+  Qed.
+
+  (* (3) the replayed hello: if no key the client ever derived from a verified hello is a key B held
+     when a datagram arrived, B never reports connect and is never CONNECTED *)
+  Theorem run_foreign_hello_never_completes_proof :
+    (forall sk s m, verify (pub sk) s m = true <-> s = sign sk m) ->
+    forall e a b root rand akeys other vs, ~ In root akeys ->
+    dy_run e root akeys other (hnet0 a (Some (pub root)) b root rand) vs ->
+    sealed_run e (hnet0 a (Some (pub root)) b root rand) vs ->
+    let n := jrun e (hnet0 a (Some (pub root)) b root rand) vs in
+    (forall dA kA sA rp pl sg, In (dA, kA, (sA, SERVER_HELLO, MServerHello rp pl sg)) (gA n) ->
+       verify (pub root) sg pl = true ->
+       forall d k0 en, In (d, k0, en) (gB n) -> k0 <> Some (client_key a pl)) ->
+    (forall j, In j (gB n) -> connects (snd j) = false) /\ c_status (h_conn (jB n)) <> CONNECTED.
+  Proof.
+    intros VS e a b root rand akeys other vs NR DY SR n Hf.
+    assert (NC : forall j, In j (gB n) -> connects (snd j) = false).
+    { intros [[d k0] [[sB ty] m]] Hj. cbn [snd]. destruct (connects (sB, ty, m)) eqn:Hc; [exfalso|reflexivity].
+      destruct (run_connect_sealed_by_client_proof VS e a b root rand akeys other vs NR DY SR _ _ _ _ _ Hj Hc)
+        as (k & -> & _ & _ & dA & kA & sA & rp & pl & sg & Hin & V & _ & _ & ->).
+      exact (Hf _ _ _ _ _ _ Hin V _ _ _ Hj eq_refl). }
+    split; [exact NC|]. intros St.
+    destruct (run_connect_proof e a (Some (pub root)) b root rand vs) as [_ CP]. fold n in CP.
+    destruct (CP St) as (d & k0 & sB & m & Hin & Hc & _). pose proof (NC _ Hin) as X. cbn [snd] in X. congruence.
+  Qed.
 End Run.
